@@ -261,6 +261,13 @@ class Interp:
         self.run = outer
         if len(results) == 1:
             return results[0][1]
+        # two complementary cases are one conditional expression: `if c: return a / return b` == `a if c else b`
+        if len(results) == 2:
+            (c1, v1), (c2, v2) = results
+            if c2 == T.not_(c1) or c1 == T.not_(c2):
+                pos_first = not (isinstance(c1, tuple) and c1 and c1[0] == "not")
+                c, a, b = (c1, v1, v2) if pos_first else (c2, v2, v1)
+                return T.ite(c, a, b)
         return ("cases", tuple(sorted(results, key=repr)))
 
     def _eval_default(self, ref: FuncRef, d: ast.expr) -> Any:
